@@ -28,4 +28,6 @@ package extensionsupport
 //@   props C07
 //@   requires reader != nil && 0 <= offset && offset <= 4200
 //@   decreases 4300 - offset
+//@   ensures err == nil && previous != nil ==> ret != nil
+//@   ensures err == nil && (atS(reader, offset) / 16) % 16 == 10 ==> ret != nil
 //@   assigns E.uint8, X.stream
